@@ -4,33 +4,56 @@ Confirms a seeded change in a scratch worktree (demo passes pristine, fails muta
 runs the given quick checks against it (applied to /repo, reverted straight afterwards) and files it under /verif/seeded/<id>/."""
 import json, os, shutil, subprocess, sys, tempfile
 
+CONFIRM_ONLY = '--confirm-only' in sys.argv    # phase A only: confirm and save the record under /var/tmp/confirm/<id>.json
+USE_CONFIRM = '--use-confirm' in sys.argv      # phase B only: take the saved confirmation, run the checks
+sys.argv = [a for a in sys.argv if a not in ('--confirm-only', '--use-confirm')]
+SCRATCH = '--scratch' in sys.argv      # run the checks against a scratch worktree (VERIF_REPO) instead of applying the patch to /repo
+sys.argv = [a for a in sys.argv if a != '--scratch']
 src, sid, props = sys.argv[1], sys.argv[2], sys.argv[3:]
-wt = tempfile.mkdtemp(prefix='confirm_', dir='/var/tmp')
-os.rmdir(wt)
 run = lambda c, **k: subprocess.run(c, shell=True, capture_output=True, text=True, **k)
-assert run('git -C /repo worktree add -q --detach %s HEAD' % wt).returncode == 0
 meta = json.load(open(os.path.join(src, 'meta.json')))
 rec = {}
+os.makedirs('/var/tmp/confirm', exist_ok=True)
+if USE_CONFIRM:
+    rec = json.load(open('/var/tmp/confirm/%s.json' % sid))
+    wt = None
+else:
+    wt = tempfile.mkdtemp(prefix='confirm_', dir='/var/tmp')
+    os.rmdir(wt)
+    assert run('git -C /repo worktree add -q --detach %s HEAD' % wt).returncode == 0
 try:
-    env = dict(os.environ, REPO_UNDER_TEST=wt, PYTHONPATH=wt, PYTHONHASHSEED='0')
-    p = run('/venv/bin/python %s/demo.py' % src, env=env, cwd=wt, timeout=600)
-    rec['demo_pristine'] = {'rc': p.returncode, 'tail': (p.stdout + p.stderr)[-200:]}
-    a = run('git apply %s/patch.diff' % src, cwd=wt)
-    rec['applies'] = a.returncode == 0
-    p = run('/venv/bin/python %s/demo.py' % src, env=env, cwd=wt, timeout=600)
-    rec['demo_mutated'] = {'rc': p.returncode, 'tail': (p.stdout + p.stderr)[-300:]}
-    p = run('/verif/tools/baseline_check.py', env=dict(os.environ, VERIF_REPO=wt), timeout=1200)
-    rec['suite_mutated'] = p.stdout.strip().splitlines()[-1] if p.stdout.strip() else p.stderr[-200:]
-    rec['suite_ok'] = p.returncode == 0
+  if not USE_CONFIRM:
+      env = dict(os.environ, REPO_UNDER_TEST=wt, PYTHONPATH=wt, PYTHONHASHSEED='0')
+      p = run('/venv/bin/python %s/demo.py' % src, env=env, cwd=wt, timeout=600)
+      rec['demo_pristine'] = {'rc': p.returncode, 'tail': (p.stdout + p.stderr)[-200:]}
+      a = run('git apply %s/patch.diff' % src, cwd=wt)
+      rec['applies'] = a.returncode == 0
+      p = run('/venv/bin/python %s/demo.py' % src, env=env, cwd=wt, timeout=600)
+      rec['demo_mutated'] = {'rc': p.returncode, 'tail': (p.stdout + p.stderr)[-300:]}
+      p = run('/verif/tools/baseline_check.py', env=dict(os.environ, VERIF_REPO=wt), timeout=1200)
+      rec['suite_mutated'] = p.stdout.strip().splitlines()[-1] if p.stdout.strip() else p.stderr[-200:]
+      rec['suite_ok'] = p.returncode == 0
 finally:
-    run('git -C /repo worktree remove --force %s' % wt)
+    if wt:
+        run('git -C /repo worktree remove --force %s' % wt)
 ok_demo = rec['demo_pristine']['rc'] == 0 and 'FAIL' not in rec['demo_pristine']['tail'] and \
     (rec['demo_mutated']['rc'] != 0 or 'FAIL' in rec['demo_mutated']['tail'])
 rec['confirmed'] = bool(ok_demo and rec.get('suite_ok') and rec.get('applies'))
+if CONFIRM_ONLY:
+    json.dump(rec, open('/var/tmp/confirm/%s.json' % sid, 'w'))
+    print(sid, 'confirmed=%s' % rec['confirmed'])
+    sys.exit(0)
 # detection by the checks
 det = {}
-assert run('git -C /repo status --short').stdout.strip() == '', '/repo not clean'
-run('git -C /repo apply %s/patch.diff' % src)
+if SCRATCH:
+    wt2 = tempfile.mkdtemp(prefix='scratch_', dir='/var/tmp')
+    os.rmdir(wt2)
+    assert run('git -C /repo worktree add -q --detach %s HEAD' % wt2).returncode == 0
+    assert run('git apply %s/patch.diff' % src, cwd=wt2).returncode == 0
+    os.environ['VERIF_REPO'] = wt2
+else:
+    assert run('git -C /repo status --short').stdout.strip() == '', '/repo not clean'
+    run('git -C /repo apply %s/patch.diff' % src)
 saved = {pid: open('/verif/evidence/%s.json' % pid).read() for pid in props if os.path.exists('/verif/evidence/%s.json' % pid)}
 try:
     for pid in props:
@@ -39,10 +62,14 @@ try:
         det[pid] = {'exit': p.returncode, 'violation_lines': len(lines),
                     'with_failing_input': sum(1 for l in lines if 'no-failing-input-found' not in l)}
 finally:
-    run('git -C /repo checkout -- .')
+    if SCRATCH:
+        run('git -C /repo worktree remove --force %s' % wt2)
+    else:
+        run('git -C /repo checkout -- .')
     for pid, txt in saved.items():   # evidence must describe the unchanged tree
         open('/verif/evidence/%s.json' % pid, 'w').write(txt)
 rec['detected_by'] = det
+rec['checks_ran_against'] = 'scratch worktree via VERIF_REPO' if SCRATCH else '/repo with the patch applied'
 dst = os.path.join('/verif/seeded', sid)
 os.makedirs(dst, exist_ok=True)
 for f in ('patch.diff', 'demo.py'):
